@@ -24,6 +24,8 @@ BLOCKS = {
     'P': ('a', 'a'), 'Q': ('a', 'a'), 'D': ('a', 'a'), 'D2': ('a', 'a'), 'I': ('a', 'a'), 'K': ('a', 'a'),
     'G': ('a', 'b'), 'G2': ('a', 'b'), 'W': ('b', 'a'), 'R': ('s', 's'), 'Rt': ('s', 's'), 'Hs': ('s', 's'),
     'It2': ('aa', 'aa'), 'Bk': ('aa', 'a'), 'Ck': ('a', 'aa'),
+    # same shapes, different dtypes: only the dtype distinguishes the shared structure
+    'P16': ('a16', 'a16'), 'I16': ('a16', 'a16'), 'Pc': ('ac', 'ac'), 'G16': ('a16', 'b16'),
 }
 TRIPLES = {
     'diag': [['P', 'G', 'D'], ['I', 'K', 'Q'], ['R', 'P', 'W'], ['D', 'D2', 'K'], ['It2', 'P', 'Bk'], ['Rt', 'R', 'Hs'], ['Q', 'P', 'D2'], ['D2', 'I', 'D']],
@@ -107,6 +109,13 @@ def env():
         'W': dn([[1, 0, 2], [-1, 3, 1]], b), 'R': R, 'Rt': R.T, 'Hs': HWPOperator(s),
         'It2': IdentityOperator([a, a]), 'Bk': BlockRowOperator([P, Q]), 'Ck': BlockColumnOperator([Q, P]),
     }
+    a16 = jax.ShapeDtypeStruct((2,), jnp.float16)
+    ac = jax.ShapeDtypeStruct((2,), jnp.complex64)
+    blocks.update({
+        'P16': DenseBlockDiagonalOperator(jnp.asarray([[1, 2], [3, 5]], jnp.float16), a16, 'ij,j->i'), 'I16': IdentityOperator(a16),
+        'Pc': DenseBlockDiagonalOperator(jnp.asarray([[1, 2j], [3, 5]], jnp.complex64), ac, 'ij,j->i'),
+        'G16': DenseBlockDiagonalOperator(jnp.asarray([[1, 2], [3, 5], [-1, 4]], jnp.float16), a16, 'ij,j->i'),
+    })
     _E.update(blocks=blocks, memo={})
     return _E
 
